@@ -99,8 +99,9 @@ def coq_make(targets, timeout=1500):
 
 def coqc_file(path, timeout=600, extra=""):
     """compile one file outside the Makefile (cases, property files), capturing its output"""
-    rc, out = sh("timeout %d coqc -q -w none -R %s MellonV %s %s" % (timeout, COQ, extra, path), timeout=timeout + 30,
-                 cwd=os.path.dirname(path))
+    # generated case files hold long list literals: coqc needs a deep stack for them (8 MB overflows around 10^4 elements)
+    rc, out = sh("ulimit -s unlimited 2>/dev/null || ulimit -s 1000000 2>/dev/null; timeout %d coqc -q -w none -R %s MellonV %s %s"
+                 % (timeout, COQ, extra, path), timeout=timeout + 30, cwd=os.path.dirname(path))
     return rc, out
 
 
